@@ -147,12 +147,30 @@ def decimals(field):
     return len(t.split('.')[1]) if '.' in t else 0
 
 
+def row_types_wrong(r):
+    """a re-read row whose text attributes are not str or whose integer attributes are not int cannot be sent to the model
+    (its rows are typed): the property's 'every other attribute identical' already fails (round-4 seed C02-r4m2: a column
+    declared with NUMERIC affinity turns the chain '1' into the number 1) -- reported as a verdict, not as a driver error"""
+    if not isinstance(r, list) or len(r) != 14:
+        return None
+    for k in (1, 2, 3, 4, 6, 12):
+        if not isinstance(r[k], str):
+            return f'attribute {k} of the re-read row is {r[k]!r} ({type(r[k]).__name__}), the table wrote text'
+    for k in (0, 5, 13):
+        if isinstance(r[k], bool) or not isinstance(r[k], int):
+            return f'attribute {k} of the re-read row is {r[k]!r} ({type(r[k]).__name__}), the table wrote an integer'
+    for k in (7, 8, 9, 10, 11):
+        if not (isinstance(r[k], str) and re.fullmatch(r'-?\d+/\d+', r[k])):
+            return f'attribute {k} of the re-read row is {r[k]!r}, not a number'
+    return None
+
+
 def driver_line(c, out):
     d = {'op': 'export', 'row': c['row']}
     line = out.get('line')
     if isinstance(line, str) and not line.startswith('ERR'):
         d['impl_line'] = line
-        if isinstance(out.get('row2'), list):
+        if isinstance(out.get('row2'), list) and row_types_wrong(out['row2']) is None:
             d['impl_row'] = out['row2']
             d['impl_line2'] = out['line2']
             d['ks'] = [decimals(line[30:38]), decimals(line[38:46]), decimals(line[46:54])]
@@ -207,6 +225,8 @@ def agree_spec(c, out, spec):
         return True
     if isinstance(out.get('row2'), str):
         return f're-reading the exported line raised {out["row2"]}'
+    if row_types_wrong(out.get('row2')):
+        return row_types_wrong(out.get('row2'))
     if spec.get('readback') is not True:
         return f'read back row {out.get("row2")} differs from the original beyond the printed precision'
     if spec.get('reexport') is not True:
